@@ -338,6 +338,23 @@ StripAliases(ds) ==
          rows |-> { [x \in { new(n) : n \in AllNames(ds) } |-> r[old(x)]] : r \in ds.rows }]
 
 -----------------------------------------------------------------------------
+(* if DS_cond then a else b: the condition is a dataset with one Boolean measure; for every datapoint of the condition the     *)
+(* selected operand (then when true, else when false or null) supplies the measures: a dataset operand its datapoint with the *)
+(* same identifiers (no such datapoint, no result datapoint), a scalar operand its value for every measure.  The result has   *)
+(* the structure of the dataset operand(s).                                                                                 *)
+IfDS(c, a, b) ==
+    LET cm == CHOOSE m \in MeasOf(c) : TRUE
+        shape == IF IsDS(a) THEN a ELSE b
+        keep == { x \in shape.comps : x.r \in {"I", "M"} }
+        names == { x.n : x \in keep }
+        ids == IdsOf(shape)
+        pick(r) == IF r[cm] = T THEN a ELSE b
+        from(sel, r) == IF IsDS(sel)
+                        THEN { [x \in names |-> q[x]] : q \in { q \in sel.rows : Rst(q, ids) = Rst(r, ids) } }
+                        ELSE { [x \in names |-> IF x \in ids THEN r[x] ELSE sel.v] }
+    IN  [comps |-> keep, rows |-> UNION { from(pick(r), r) : r \in c.rows }]
+
+-----------------------------------------------------------------------------
 (* The evaluator *)
 RECURSIVE EvalD(_, _)
 ApplyClause(t, ds, env) ==
@@ -374,9 +391,11 @@ EvalD(t, env) ==
             LET x == EvalD(t.x, env)
             IN  IF IsE(x) THEN x ELSE IF IsDS(x) THEN InDS(t.neg, x, Rng(t.set))
                 ELSE Sc(IF t.neg THEN NotInV(x.v, Rng(t.set)) ELSE InV(x.v, Rng(t.set)), "Boolean")
-      [] t.k = "if" ->      \* scalar-level conditional
+      [] t.k = "if" ->      \* scalar-level conditional, or dataset-level when the condition is a dataset
             LET c == EvalD(t.c, env) a == EvalD(t.t, env) b == EvalD(t.e, env)
-            IN  IF IsE(c) THEN c ELSE IF c.v = T THEN a ELSE b
+            IN  IF IsE(c) THEN c
+                ELSE IF IsDS(c) THEN (IF IsE(a) THEN a ELSE IF IsE(b) THEN b ELSE IfDS(c, a, b))
+                ELSE IF c.v = T THEN a ELSE b
       [] t.k = "memb" ->
             LET x == EvalD(t.ds, env) IN IF IsE(x) THEN x ELSE Memb(x, t.comp)
       [] t.k = "clause" ->
